@@ -51,6 +51,8 @@ func vxDrawMut(t *rapid.T, delta bool) vxMut {
 		m.Val = rapid.SampledFrom(vxHostileVals).Draw(t, "val")
 		if rapid.IntRange(0, 2).Draw(t, "rel") == 0 {
 			m.Val = int64(rapid.IntRange(-2, 2).Draw(t, "delta")) + 1<<40 // relative to the current value
+		} else if rapid.IntRange(0, 2).Draw(t, "idx") == 0 {
+			m.Val = int64(rapid.IntRange(0, 13).Draw(t, "typeidx")) // meaningful for type-id fields
 		}
 	case "flip":
 		m.Bits = rapid.SliceOfN(rapid.IntRange(0, 1<<22), 1, 4).Draw(t, "bits")
@@ -80,7 +82,15 @@ func vxApplyMut(body []byte, fields []cqlspec.Field, m vxMut) []byte {
 			return out
 		}
 		v := m.Val
-		if v >= 1<<39 { // relative
+		if f.Kind == "type-id" {
+			// swap the type of a column / element / key for another one (well-formed id, wrong shape)
+			ids := []int64{0x03, 0x0d, 0x09, 0x20, 0x21, 0x22, 0x30, 0x31, 0x00, 0x0e, 0x06, 0x10, 0x15, 0x7fff}
+			i := v % int64(len(ids))
+			if i < 0 {
+				i = -i
+			}
+			v = ids[i]
+		} else if v >= 1<<39 { // relative
 			var cur int64
 			for i := 0; i < f.Width; i++ {
 				cur = cur<<8 | int64(out[f.Off+i])
